@@ -324,6 +324,106 @@ func genMaps(maxPairs int, emit func(tcase)) {
 	rec(nil)
 }
 
+// ---------------------------------------------------------------- sequences of literals sharing an embedded value
+
+// seqBody: the embedded containers are bound to variables, two literals unpack the same first container one
+// after the other; both results and the shared container itself must be what each literal alone would give.
+func seqBody(t tcase) string {
+	var i, j, k int
+	fmt.Sscanf(t.Emb[0], "%d", &i)
+	fmt.Sscanf(t.Emb[1], "%d", &j)
+	fmt.Sscanf(t.Emb[2], "%d", &k)
+	if t.Kind == "objseq" {
+		return fmt.Sprintf("e0 := %s\ne1 := %s\ne2 := %s\nr1 := {**e0, **e1}\nr2 := {**e0, **e2}\n[r1.S, r2.S, e0.S, r1.items(private?: true), r2.items(private?: true), e0.items(private?: true), {**e0}.S]",
+			embObjs[i].src, embObjs[j].src, embObjs[k].src)
+	}
+	return fmt.Sprintf("e0 := %s\ne1 := %s\ne2 := %s\nr1 := %%{**e0, **e1}\nr2 := %%{**e0, **e2}\n[r1.A, r2.A, e0.A, r1.len, r2.len, %%{**e0}.A]",
+		embMaps[i].src, embMaps[j].src, embMaps[k].src)
+}
+
+func seqExpect(t tcase) []string {
+	if t.Kind == "objseq" {
+		one := func(emb []string) (string, string) {
+			pub, priv, vals := objModel(tcase{Kind: "obj", Emb: emb})
+			all := append(append([]string{}, pub...), priv...)
+			sorted := append([]string{}, all...)
+			sort.Strings(sorted)
+			rp := make([]string, len(sorted))
+			for i, n := range sorted {
+				rp[i] = q(n) + ": " + vals[n]
+			}
+			its := make([]string, len(all))
+			for i, n := range all {
+				its[i] = "[" + q(n) + ", " + vals[n] + "]"
+			}
+			return "{" + strings.Join(rp, ", ") + "}", arr(its)
+		}
+		s1, i1 := one([]string{t.Emb[0], t.Emb[1]})
+		s2, i2 := one([]string{t.Emb[0], t.Emb[2]})
+		s0, i0 := one([]string{t.Emb[0]})
+		return []string{"S:" + s1, "S:" + s2, "S:" + s0, i1, i2, i0, "S:" + s0}
+	}
+	one := func(emb []string) (string, string) {
+		m := mapModel(tcase{Kind: "map", Emb: emb})
+		its := []string{}
+		for _, p := range m {
+			its = append(its, "["+p.k.repr+", "+p.v+"]")
+		}
+		return arr(its), fmt.Sprint(len(m))
+	}
+	a1, l1 := one([]string{t.Emb[0], t.Emb[1]})
+	a2, l2 := one([]string{t.Emb[0], t.Emb[2]})
+	a0, _ := one([]string{t.Emb[0]})
+	return []string{a1, a2, a0, l1, l2, a0}
+}
+
+func genSeqs(emit func(tcase)) {
+	for i := range embObjs {
+		for j := range embObjs {
+			for k := range embObjs {
+				emit(tcase{Kind: "objseq", Src: fmt.Sprintf("{**%s, **%s} then {**%s, **%s}", embObjs[i].src, embObjs[j].src, embObjs[i].src, embObjs[k].src), Emb: []string{fmt.Sprint(i), fmt.Sprint(j), fmt.Sprint(k)}})
+			}
+		}
+	}
+	for i := range embMaps {
+		for j := range embMaps {
+			for k := range embMaps {
+				if embMaps[i].isObj {
+					continue
+				}
+				emit(tcase{Kind: "mapseq", Src: fmt.Sprintf("%%{**%s, **%s} then %%{**%s, **%s}", embMaps[i].src, embMaps[j].src, embMaps[i].src, embMaps[k].src), Emb: []string{fmt.Sprint(i), fmt.Sprint(j), fmt.Sprint(k)}})
+			}
+		}
+	}
+}
+
+func judgeSeq(c *core.Ctx, t tcase, o panrun.Obs) {
+	c.Nontrivial(1)
+	c.Validated(1)
+	a, ok := o.Val.(*object.PanArr)
+	exp := seqExpect(t)
+	if o.Kind != "value" || !ok || len(a.Elems) != len(exp) {
+		c.Violation(core.Violation{Key: t.Kind + "/evaluation-failed", Case: core.JSON(t), Desc: t.Src, Expected: "a value", Observed: o.Short()})
+		return
+	}
+	c.Outcome(t.Kind + ":ok")
+	names := []string{"first literal", "second literal", "shared container afterwards", "first literal items", "second literal items", "shared container items/len", "fresh unpack of the shared container"}
+	for i, e := range exp {
+		got := a.Elems[i].Inspect()
+		if strings.HasPrefix(e, "S:") {
+			e = e[2:]
+			if s, isStr := a.Elems[i].(*object.PanStr); isStr {
+				got = s.Value
+			}
+		}
+		if got != e {
+			c.Violation(core.Violation{Key: t.Kind + "/" + strings.ReplaceAll(names[i%len(names)], " ", "-"), Case: core.JSON(t), Desc: t.Src, Expected: names[i%len(names)] + " = " + e, Observed: got,
+				Repro: strings.Replace(seqBody(t), "\n[", "\n[r1, r2, e0].p\n[", 1) + "\n"})
+			return
+		}
+	}
+}
+
 // ---------------------------------------------------------------- judging
 
 func nontrivial(t tcase) bool {
@@ -385,6 +485,10 @@ func judge(c *core.Ctx, t tcase, o panrun.Obs) {
 		return
 	}
 	c.Outcome(t.Kind + ":ok")
+	if t.Kind == "objseq" || t.Kind == "mapseq" {
+		judgeSeq(c, t, o)
+		return
+	}
 	if t.Kind == "obj" {
 		exp := objExpect(t)
 		for i, e := range exp {
@@ -466,7 +570,11 @@ func run(c *core.Ctx) {
 	total := tk.Batched(c, 600, "", func(emit func(tcase)) {
 		genObjs(maxP, emit)
 		genMaps(maxP, emit)
+		genSeqs(emit)
 	}, func(t tcase) string {
+		if t.Kind == "objseq" || t.Kind == "mapseq" {
+			return seqBody(t)
+		}
 		if t.Kind == "obj" {
 			return objBody(t)
 		}
@@ -490,6 +598,9 @@ func replay(c *core.Ctx, raw json.RawMessage) {
 	body := mapBody(t)
 	if t.Kind == "obj" {
 		body = objBody(t)
+	}
+	if t.Kind == "objseq" || t.Kind == "mapseq" {
+		body = seqBody(t)
 	}
 	obs := c.R().Thunks("", []string{body}, "")
 	c.Eval(1)
